@@ -106,6 +106,9 @@ static inline void reach(miter_t *mi, const struct mtbl_source *src, const model
 }
 
 /* every target must be >= the range start of the bound */
+/* optional extra seek targets for the product and the histories (index separator keys recovered by the independent decoder) */
+static const qset_t *g_extra_targets;
+
 static inline void suite_seek_product(const struct mtbl_source *src, const model_t *m, const epos_t *ep,
 				      const bspec_t *bounds, size_t nbounds, rng_t *r)
 {
@@ -123,6 +126,7 @@ static inline void suite_seek_product(const struct mtbl_source *src, const model
 			free(t);
 		}
 		if (bs->kind != IK_ITER) qset_add(&tg, bs->a.p, bs->a.n);        /* the range start itself */
+		if (g_extra_targets) for (size_t i = 0; i < g_extra_targets->n; i++) { qset_add(&tg, g_extra_targets->q[i].p, g_extra_targets->q[i].n); STAT("product.separator_targets"); }
 		{ uint8_t pe[3] = {0xff, 0xff, 0xff}; if (m->n == 0 || key_cmp(pe, 3, m->e[m->n - 1].k.p, m->e[m->n - 1].k.n) > 0) qset_add(&tg, pe, 3); }
 		qset_finish(&tg);
 		/* drop targets below the range start (outside the statement) */
@@ -155,9 +159,19 @@ static inline void suite_seek_product(const struct mtbl_source *src, const model
 					/* something happens to another iterator of the same source in between */
 					int poke = rndn(r, 3);
 					if (poke) { miter_open(&other, src, m, IK_ITER, NULL, 0, NULL, 0); if (poke == 2 && m->n) { size_t x = rndn(r, m->n); miter_seek(&other, m->e[x].k.p, m->e[x].k.n, "other"); } miter_next(&other, "other"); }
+					/* sometimes one more seek in between (past the end, or any target): positions reached through two seeks */
+					int two = rndn(r, 4) == 0;
+					if (two) {
+						uint8_t pe[3] = {0xff, 0xff, 0xff};
+						if (rndn(r, 2) && (m->n == 0 || key_cmp(pe, 3, m->e[m->n - 1].k.p, m->e[m->n - 1].k.n) > 0)) miter_seek(&mi, pe, 3, "product-mid");
+						else if (tg.n) { const bs_t *q = &tg.q[rndn(r, (uint32_t)tg.n)]; miter_seek(&mi, q->p, q->n, "product-mid"); }
+						STAT("product.two_seek_prefixes");
+					}
 					miter_seek(&mi, t, lt, "product");
 					if (poke) { miter_next(&other, "other"); miter_close(&other); }
 					miter_next(&mi, "product"); miter_next(&mi, "product"); miter_next(&mi, "product");
+					/* a quarter of the trials run on to the end: a wrong block hop shows only when the block is left */
+					if (rndn(r, 4) == 0) { miter_drain(&mi, "product-drain"); STAT("product.drained_to_end"); }
 					miter_close(&mi);
 					free(just);
 					STAT("seek_checks");
@@ -240,6 +254,7 @@ static inline void suite_history(const struct mtbl_source *src, const model_t *m
 			else if (tk == 0 && mi->last_idx >= 0) { t = m->e[mi->last_idx].k.p; lt = m->e[mi->last_idx].k.n; cls = "key-just-returned"; }
 			else if (tk == 1 && mi->last_idx > (long)start) { t = m->e[mi->last_idx - 1].k.p; lt = m->e[mi->last_idx - 1].k.n; cls = "predecessor-of-current"; }
 			else if (tk == 2) { tmp[0] = 0xff; tmp[1] = 0xff; tmp[2] = 0xff; tmp[3] = 0xff; t = tmp; lt = 4; cls = "past-end"; }
+			else if (tk == 5 && g_extra_targets && g_extra_targets->n) { const bs_t *q = &g_extra_targets->q[rndn(r, (uint32_t)g_extra_targets->n)]; t = q->p; lt = q->n; cls = "index-separator"; }
 			else if (tk == 3) { const ent_t *e = &m->e[start + rndn(r, m->n - start)]; heap = xmalloc(e->k.n + 1); memcpy(heap, e->k.p, e->k.n); heap[e->k.n] = (uint8_t)rndn(r, 256); t = heap; lt = e->k.n + 1; cls = "extension-of-stored"; }
 			else if (tk == 4 && mi->last_idx >= 0 && (size_t)mi->last_idx + 1 < m->n) { size_t x = mi->last_idx + 1 + rndn(r, 3); if (x >= m->n) x = m->n - 1; t = m->e[x].k.p; lt = m->e[x].k.n; cls = "short-forward"; }
 			else { const ent_t *e = &m->e[start + rndn(r, m->n - start)]; t = e->k.p; lt = e->k.n; }
